@@ -26,7 +26,8 @@ def refine_mechanism(cls: str, v: Dict[str, Any]) -> str:
         return "enum-value-reserved-by-python-enum"
     if cls == "names.underscore_digit" and re.search(r"Cannot parse.*\n\s+[0-9]", d, re.S):
         return "name-leading-underscore-then-digit"
-    if "found using 'typename__'" in d or re.search(r"fields of \w+ \(fields: .*'typename__'", d) and "'typename__'" in d.split("response key")[-1][:40]:
+    case_text = str((v.get("case") or {}).get("_queries", "")) + str((v.get("case") or {}).get("_sdl", ""))
+    if cls == "names.dunder_like" and "typename__" in d and re.search(r"\btypename__\b\s*[:(]", case_text):  # the input really uses the literal name typename__ and the witness is about it
         return "user-name-equals-typename-alias"
     return "gen:%s:%s:%s" % (cls, v["property"], v["clause"])
 
